@@ -600,10 +600,18 @@ def minimize_subcircuits(
             logger.debug("Circuit becomes cyclic")
             continue
 
+        # Update the states: the gates of the replaced region are gone (some of
+        # their labels are reused by the new gates)
+        for gate in _get_internal_gates(
+            circuit,
+            list(input_labels_mapping.keys()),
+            list(output_labels_mapping.keys()),
+        ):
+            node_states[gate] = _NodeState.REMOVED
+
         circuit = new_circuit
         logger.debug("Improved circuit size")
 
-        # Update the states
         for output in output_labels_mapping:
             node_states[output] = _NodeState.REMOVED
 
